@@ -403,6 +403,16 @@ func NewEnv(mode string, seed uint64, ntasks int, pick int) *Env {
 				break
 			}
 		}
+		if names := SharedIETypes(); pick >= SharedIEBase && len(names) > 0 {
+			t := c.Types[names[(pick-SharedIEBase)%len(names)]]
+			e.Shared = nas.NewMessage() // empty: the shared values below are what the tasks read
+			if t != nil {
+				for k := 0; k < 8; k++ {
+					e.SharedIEs = append(e.SharedIEs, c.newReceiver(t.T, r.Fork()))
+				}
+			}
+			return e
+		}
 		if pick >= 0 {
 			idx = c.OKSamples[pick%len(c.OKSamples)]
 		}
